@@ -85,3 +85,47 @@ Example C04_witness :
   /\ (forall r', enter_indirect r (Some 10, []) = Ok r' -> r_dirty r' = true /\ ls_lines (r_listing r') = [])
   /\ (forall r', enter_indirect r (Some 20, []) = Ok r' -> r_dirty r' = false /\ ls_lines (r_listing r') = ls_lines (r_listing r)).
 Proof. cbn. repeat split; intros; match goal with H : Ok _ = Ok _ |- _ => injection H as <- end; reflexivity. Qed.
+
+(* ---- what was compiled before does not matter (Proofs/FreshRun.v) ---- *)
+From BL Require Import Lang.Token Lang.Parse Mach.Val Proofs.Slicing Proofs.Swap Proofs.FreshRun.
+
+(* compiling the stored lines: the previous program enters only through its DATA pointer, which the compiler carries along
+   untouched (and through pending WHILE/WEND records, empty after every link) *)
+Theorem C04_compile_forgets_previous_program : forall ls p p', l_whiles (pg_link p) = l_whiles (pg_link p') ->
+  compile_listing p' ls = with_pdp (compile_listing p ls) (l_data_pos (pg_link p')).
+Proof. exact compile_listing_any. Qed.
+Print Assumptions C04_compile_forgets_previous_program.
+
+(* two machines with the flag up that agree on the listing (and on prompt text, snapshots, trace mode, cursor column, entropy
+   position and the dead continuation address) agree, after the same direct line, on everything a run can read that a run
+   does not itself reset: compiled code, direct code, entry point, states *)
+Theorem C04_edited_machines_agree : forall r r' l,
+  r_dirty r = true -> r_dirty r' = true -> r_listing r = r_listing r' ->
+  l_whiles (pg_link (r_prog r)) = l_whiles (pg_link (r_prog r')) ->
+  r_prompt r = r_prompt r' -> r_snap r = r_snap r' -> r_tron r = r_tron r' -> r_col r = r_col r' -> r_ent r = r_ent r' ->
+  r_cont_pc r = r_cont_pc r' ->
+  static_eq (enter_direct r l) (enter_direct r' l).
+Proof. exact edited_machines_agree. Qed.
+Print Assumptions C04_edited_machines_agree.
+
+(* RUN after any history of edits and runs = RUN in any other machine that holds the same listing: same states, same
+   events, for any number of instructions *)
+Theorem C04_run_after_edit_is_fresh : forall O r r' l n h,
+  r_dirty r = true -> r_dirty r' = true -> r_listing r = r_listing r' ->
+  l_whiles (pg_link (r_prog r)) = l_whiles (pg_link (r_prog r')) ->
+  r_prompt r = r_prompt r' -> r_snap r = r_snap r' -> r_tron r = r_tron r' -> r_col r = r_col r' -> r_ent r = r_ent r' ->
+  r_cont_pc r = r_cont_pc r' ->
+  nthN (l_ops (pg_link (r_prog (enter_direct r l)))) (r_pc (enter_direct r l)) = Some OpClear ->
+  prog_line_for (enter_direct r l) (r_pc (enter_direct r l)) = None ->
+  exec_loop_x O (S n) h (enter_direct r l) = exec_loop_x O (S n) h (enter_direct r' l).
+Proof. exact run_after_edit_is_fresh. Qed.
+Print Assumptions C04_run_after_edit_is_fresh.
+
+(* the premises are met by a fresh machine and a used one holding the same edited listing, with RUN as the direct line *)
+Theorem C04_fresh_run_applies :
+  r_dirty edited_fresh = true /\ r_dirty edited_used = true /\ r_listing edited_fresh = r_listing edited_used
+  /\ edited_fresh <> edited_used
+  /\ nthN (l_ops (pg_link (r_prog (enter_direct edited_fresh run_line)))) (r_pc (enter_direct edited_fresh run_line)) = Some OpClear
+  /\ prog_line_for (enter_direct edited_fresh run_line) (r_pc (enter_direct edited_fresh run_line)) = None.
+Proof. exact fresh_run_premises. Qed.
+Print Assumptions C04_fresh_run_applies.
